@@ -650,7 +650,9 @@ impl<'a> Socket<'a> {
                 if state.retry >= self.retry_config.request_retries {
                     net_debug!("DHCP request retries exceeded, restarting discovery");
                     self.reset();
-                    return Ok(());
+                    // Discovery starts right away: send the DISCOVER in this very dispatch
+                    // instead of asking (through `poll_at`) for another poll at the same instant.
+                    return self.dispatch(cx, emit);
                 }
 
                 dhcp_repr.message_type = DhcpMessageType::Request;
@@ -677,8 +679,9 @@ impl<'a> Socket<'a> {
                 if state.expires_at <= now {
                     net_debug!("DHCP lease expired");
                     self.reset();
-                    // return Ok so we get polled again
-                    return Ok(());
+                    // Discovery starts right away: send the DISCOVER in this very dispatch
+                    // instead of asking (through `poll_at`) for another poll at the same instant.
+                    return self.dispatch(cx, emit);
                 }
 
                 if now < state.renew_at || state.rebinding && now < state.rebind_at {
